@@ -28,7 +28,7 @@ REQUIRED_REACH = ["spectrum.py:FrequencyDirectionSpectrum.direction_step",
                   "spectrum.py:FrequencyDirectionSpectrum.as_frequency_spectrum",
                   "operations.py:integrate_spectral_data", "math.py:wrapped_difference"]
 TIMEOUT = {"quick": 600, "thorough": 2400}
-N = {"quick": (8, 40), "thorough": (16, 1200)}
+N = {"quick": (8, 40), "thorough": (16, 500)}
 
 
 def plan(tier, seed):
